@@ -53,8 +53,10 @@ def r1(ctx):
         inst = "forward#%d" % k
 
         def ow(body, tgt=tgt):
+            from ..hir import cpretty as _cp, let_table as _lt2
             asg = [x for x in walk(body) if x.get("k") == "assign"]
-            return len(asg) == 1 and pretty(strip(asg[0]["l"])) == tgt and ".last().unwrap()" in pretty(asg[0]["r"]) and "activated[" in pretty(asg[0]["r"])
+            rhs = _cp(asg[0]["r"], _lt2(body)) if len(asg) == 1 else ""
+            return len(asg) == 1 and pretty(strip(asg[0]["l"])) == tgt and ".last().unwrap()" in rhs and "activated[" in rhs
         check_acc_dispatch(ctx, "R11.1", fn, m, inst, overwrite_ok=ow)
         scr = strip(m["scrut"])
         ctx.check("R11.1", inst + ":dispatch-on-accumulation", scr.get("k") == "field" and scr["f"] == "accumulation", "dispatch-field:" + pretty(scr), c.loc(fn, m), "match self.accumulation")
@@ -76,7 +78,11 @@ def r1(ctx):
                         arg = strip(prim_calls[0]["args"][0])
                         ah = e4.local_hid(arg)
                         pushes = [y for lp_ in src_loops for y in walk(lp_) if y.get("k") == "mcall" and y["name"] == "push" and e4.local_hid(y["recv"]) == ah]
-                        collects = ah is None and any(y.get("k") == "mcall" and y["name"] in ("map", "collect") for y in walk(arg))
+                        from ..hir import resolve as _res, let_table as _lt
+                        arg_r = _res(arg, _lt(a["body"]))        # `let others = sources.iter().map(..).collect(); x.mean_inplace(&others)`
+                        if ah is not None and ah in _lt(a["body"]):
+                            arg_r = strip(_lt(a["body"])[ah])
+                        collects = arg_r is not None and arg_r.get("k") == "mcall" and arg_r["name"] == "collect" and any(y.get("k") == "mcall" and y["name"] == "map" for y in walk(arg_r))
                         okn = (ah is not None and len(pushes) == 1) or collects
                     ctx.check("R11.1", "%s:Mean:joint-mean" % inst, okn, "mean-not-taken-jointly-over-all-sources", c.loc(fn, a["body"]),
                               "one mean_inplace over the list of all sources",
